@@ -509,6 +509,30 @@ class Lib:
                         self.use(f"module-level table {an}: entries are immutable objects with the field values written in the source")
                         return [(st, obj)]
                 return [(st, Exc("KeyError", f"{an}[{idx.conc!r}]", getattr(node, "lineno", 0)))]
+        if base.t[0] == "modattr" and idx.conc is None and idx.t == STR:
+            # symbolic key into a module-level dict literal of constructor calls: one of its (immutable, pre-allocated) entries, or KeyError
+            mn, an = base.conc.rsplit(".", 1)
+            m = e.src.modules.get(mn)
+            node0 = m.assigns.get(an) if m else None
+            if isinstance(node0, ast.Dict) and node0.keys and all(isinstance(kx, ast.Constant) and isinstance(kx.value, str) and isinstance(vx, ast.Call) and isinstance(vx.func, ast.Name)
+                                                                  for kx, vx in zip(node0.keys, node0.values)):
+                cnames = {vx.func.id for vx in node0.values}
+                if len(cnames) == 1:
+                    cname = cnames.pop()
+                    member = z3.Or([idx.z == e.const_val(kx.value).z for kx in node0.keys])
+                    outs = []
+                    for s2, has in e.split(st, member):
+                        if has:
+                            r = z3.Const(fresh_name(f"entry_{an}"), e.S.Ref)
+                            s2.assume(r != e.S.null)
+                            s2.assume(e.dtype_fn(r) == e.class_id(cname))
+                            if s2.old is not None:
+                                s2.assume(z3.Select(s2.old.alloc, r))
+                            self.use(f"module-level table {an}: entries are immutable objects allocated before the call")
+                            outs.append((s2, Val(ref(cname), r)))
+                        else:
+                            outs.append((s2, Exc("KeyError", f"{an}[...]", getattr(node, "lineno", 0))))
+                    return outs
         if base.t[0] == "ref" and base.t[1] == "Address" and idx.conc in (0, 1):
             return [(st, e.load_field(st, base, "host" if idx.conc == 0 else "portno", node))]
         raise Unsupported(f"subscript on {tstr(base.t)}", node, e.path)
